@@ -217,12 +217,18 @@ func (c *Cluster) goFlushStore(sCtx signal.Context) {
 			Encoder:     c.Codec,
 		}
 		flush.FlushSync(sCtx, c.CopyState())
-		c.OnChange(func(_ context.Context, change Change) {
+		c.OnChange(func(_ context.Context, _ Change) {
 			select {
 			case <-sCtx.Done():
 				return
 			default:
-				flush.Flush(sCtx, change.State)
+				// Flush the current state, not the one carried by the notification:
+				// notifications are delivered from goroutines of their own, so one emitted
+				// before this handler was bound (loading the persisted state in Open) can
+				// arrive afterwards and would overwrite the flush above - and with it the
+				// restarted host's new heartbeat generation - with the state of the
+				// previous run.
+				flush.Flush(sCtx, c.CopyState())
 			}
 		})
 		sCtx.Go(func(ctx context.Context) error {
